@@ -28,10 +28,11 @@ const (
 	Commit                 // before COMMIT
 	Committed              // after a successful COMMIT
 	RolledBack             // after ROLLBACK (explicit or because COMMIT was failed)
+	StmtDone               // after an Exec / Query returned (its error, if any, is not visible here)
 )
 
 func (k Kind) String() string {
-	return [...]string{"begin", "stmt", "commit", "committed", "rolledback"}[k]
+	return [...]string{"begin", "stmt", "commit", "committed", "rolledback", "stmtdone"}[k]
 }
 
 // Point describes one seam crossing.
@@ -123,14 +124,18 @@ func (c *conn) ExecContext(ctx context.Context, q string, args []driver.NamedVal
 	if err := call(Point{Kind: Stmt, InTx: c.inTx, Query: q, Ctx: ctx}); err != nil {
 		return nil, err
 	}
-	return c.SQLiteConn.ExecContext(ctx, q, args)
+	res, err := c.SQLiteConn.ExecContext(ctx, q, args)
+	_ = call(Point{Kind: StmtDone, InTx: c.inTx, Query: q, Ctx: ctx})
+	return res, err
 }
 
 func (c *conn) QueryContext(ctx context.Context, q string, args []driver.NamedValue) (driver.Rows, error) {
 	if err := call(Point{Kind: Stmt, InTx: c.inTx, Query: q, Ctx: ctx}); err != nil {
 		return nil, err
 	}
-	return c.SQLiteConn.QueryContext(ctx, q, args)
+	rows, err := c.SQLiteConn.QueryContext(ctx, q, args)
+	_ = call(Point{Kind: StmtDone, InTx: c.inTx, Query: q, Ctx: ctx})
+	return rows, err
 }
 
 type tx struct {
